@@ -40,7 +40,7 @@ pub enum Scen {
     Full,
 }
 
-#[derive(Clone, Debug)]
+#[derive(Clone, Debug, Serialize, Deserialize)]
 pub struct C14Cfg {
     pub scen: Scen,
     pub anchors: bool,
@@ -277,6 +277,10 @@ impl Model for C14Model {
     type Op = Op;
     type State = C14State;
 
+    fn cfg_json(&self) -> serde_json::Value {
+        serde_json::to_value(&self.cfg).unwrap()
+    }
+
     fn name(&self) -> String {
         format!(
             "chainmc({:?},{},{:?},L={},B={}{})",
@@ -469,4 +473,10 @@ pub fn explore(tier: Tier, wall_s: f64) -> ChainRun {
         merge_stats(&mut stats, &st);
     }
     ChainRun { stats, found, models }
+}
+
+pub fn replay_ops(v: &serde_json::Value) -> Vec<Vio> {
+    let cfg: C14Cfg = serde_json::from_value(v["cfg"].clone()).expect("chainmc cfg");
+    let ops: Vec<Op> = serde_json::from_value(v["ops"].clone()).expect("chainmc ops");
+    crate::vmc::replay(&C14Model { cfg }, &ops)
 }
